@@ -12,7 +12,7 @@
    (contract N3; with a running pay the statement is false of any implementation that does not lock
    the node). The tree is the one after the D5 repair (pending parts are listed BEFORE completed
    parts, sequentially); the pinned order is refuted by Findings below. *)
-From Tramp Require Import Model.Base Model.Node Model.Provider Model.ProviderSys Proofs.ProviderProofs.
+From Tramp Require Import Model.Base Model.Node Model.Provider Model.ProviderSys Proofs.ProviderProofs Proofs.ProviderTyped.
 
 Theorem C15_wait : forall (parts0 : list pstat) (evs : list pevent),
   hist_ok (wait_init parts0) evs = true ->
@@ -28,6 +28,14 @@ Proof.
   pose proof (PInv_fin s r (PInv_run evs _ (PInv_wait_init parts0) Hok) Hr) as H.
   destruct r; [exact H|exact (proj1 H)|exact I].
 Qed.
+
+(* and it returns an error only after a read RPC (listsendpays / waitsendpay) was answered with an error: in a history that
+   respects the contract and has no such fault, wait_payment ends with a preimage or with 'none' — whatever the order in which
+   parts resolve relative to its queries, whatever their failure codes *)
+Theorem C15_error_only_after_a_read_error : forall (parts0 : list pstat) (evs : list pevent),
+  hist_ok (wait_init parts0) evs = true -> hist_clean (wait_init parts0) evs = true ->
+  ps_st (prun (wait_init parts0) evs) <> SFin PErr.
+Proof. exact wait_no_read_error_no_PErr. Qed.
 
 (* the answer stays true afterwards: once it returned, parts can only stay as they are (no pay is running) *)
 Theorem C15_invariant_everywhere : forall (parts0 : list pstat) (evs : list pevent),
